@@ -174,7 +174,7 @@ def ts1(ctx, pid):
     ctx.expect_min("absorptions of loaded nodes", n_abs, 2, "kv-child merge in _normalize_branch_node, extension merge in _delete_kv_node")
     # ---- PENDG: guard table of the pending increment
     f = prune
-    incs = [e for e in ctx.E.primitives(f) if e.state == "PEND" and e.op == "W" and e.meth == "aug"]
+    incs = [e for e in ctx.E.primitives(f) if e.state == "PEND" and e.op == "W" and e.meth == "aug" and isinstance(e.node, ast.AugAssign) and isinstance(e.node.op, ast.Add)]
     c = "pending-guard:HexaryTrie._prune_node"
     if len(incs) != 1:
         ctx.bad(c, f.loc(), "expected exactly one `_pending_prune_keys[key] += 1`, found %d" % len(incs), rule="PENDG")
@@ -205,6 +205,9 @@ def ts1(ctx, pid):
         rcw = [e for e in prim if e.state == "RC" and e.op == "W" and e.meth == "aug" and util.is_self_root(e)]
         for e in rcw:
             c = "count-with-write:%s" % fkey(g)
+            if isinstance(e.node, ast.AugAssign) and not isinstance(e.node.op, ast.Add):
+                ctx.bad("count-arithmetic:%s" % fkey(g), e.where(), "a reference count is changed in place by `%s`; counts only go up by one at the db write and are set to the remaining count in _complete_pruning" % util.norm_src(e.node), rule="EFF1")
+                continue
             dbw = [x for x in prim if x.state == "DB" and x.op == "W" and util.is_self_root(x)]
             ok = False
             if dbw:
